@@ -8,7 +8,9 @@ open Mieru.Driver Mieru.LowEntropy
   le-dec <hex enc> <n> <mode> <half> <rot>            → ok <hex> | err rejected
   le-meta <proto> <mode> <half> <rot> <payloadLen> <extractedLen> → ok true|false
   pdep <x> <mask> | pext <x> <mask>                   → ok <nat>   (bit-by-bit spec)
-  pdep-go <x> <mask> | pext-go <x> <mask>             → ok <nat>   (transcribed Go loop)
+  pdep-go <x> <mask> | pext-go <x> <mask>             → ok <nat> | err fuel  (transcribed Go loop)
+  le-wrap-enc <hex ct‖tag> <mode> <half> <rot> <payloadLen> <extractedLen> <pad>   → ok <hex> | err rejected
+  le-wrap-dec <hex body‖tag> <proto> <mode> <half> <rot> <payloadLen> <extractedLen> → ok <hex> | err rejected
 -/
 def handler : IO Handler := pure fun op args => pure <|
   match op, args with
@@ -38,11 +40,26 @@ def handler : IO Handler := pure fun op args => pure <|
     | some x, some m => if x < 2^64 ∧ m < 2^64 then some s!"ok {pext x m}" else some "bad-op"
     | _, _ => some "bad-op"
   | "pdep-go", [x, m] => match x.toNat?, m.toNat? with
-    | some x, some m => if x < 2^64 ∧ m < 2^64 then some s!"ok {pdepGo x m}" else some "bad-op"
+    | some x, some m => if x < 2^64 ∧ m < 2^64 then (match pdepGo x m with | some r => some s!"ok {r}" | none => some "err fuel") else some "bad-op"
     | _, _ => some "bad-op"
   | "pext-go", [x, m] => match x.toNat?, m.toNat? with
-    | some x, some m => if x < 2^64 ∧ m < 2^64 then some s!"ok {pextGo x m}" else some "bad-op"
+    | some x, some m => if x < 2^64 ∧ m < 2^64 then (match pextGo x m with | some r => some s!"ok {r}" | none => some "err fuel") else some "bad-op"
     | _, _ => some "bad-op"
+  | "le-wrap-enc", [ct, mode, half, rot, pl, el, pad] =>
+    match parseHex ct, mode.toNat?, half.toNat?, rot.toNat?, pl.toNat?, el.toNat?, pad.toNat? with
+    | some c, some m, some h, some r, some pl, some el, some p =>
+      if p > 1 then some "bad-op" else
+      match wrapEncode c m h r pl el (p == 1) with
+      | some w => some s!"ok {toHex w}"
+      | none => some "err rejected"
+    | _, _, _, _, _, _, _ => some "bad-op"
+  | "le-wrap-dec", [w, proto, mode, half, rot, pl, el] =>
+    match parseHex w, proto.toNat?, mode.toNat?, half.toNat?, rot.toNat?, pl.toNat?, el.toNat? with
+    | some w, some pr, some m, some h, some r, some pl, some el =>
+      match wrapDecode w pr m h r pl el with
+      | some c => some s!"ok {toHex c}"
+      | none => some "err rejected"
+    | _, _, _, _, _, _, _ => some "bad-op"
   | _, _ => none
 
 end Mieru.Driver.LowEntropy
